@@ -820,3 +820,8 @@ CORPUS += [
     V("C10", "top-p-most-likely-not-kept-explicitly", DECP, "    sorted_indices_to_remove[..., -1] = False\n", "", "C10.b"),
     V("C10", "top-p-keeps-first-instead-of-last", DECP, "    sorted_indices_to_remove[..., -1] = False\n", "    sorted_indices_to_remove[..., 0] = False\n", "C10.b"),
 ]
+
+CORPUS += [
+    V("C19", "mtvrp-load-capacity-not-rescaled-again", R + "mtvrp/env.py", '            # the capacity is expressed in the same (normalised) unit as the demands\n            td_load.set(\n                "vehicle_capacity",\n                td_load["vehicle_capacity"] / td_load["capacity_original"],\n            )\n', "", "C19.b"),
+    V("C19", "mtvrp-load-backhaul-not-rescaled", R + "mtvrp/env.py", '            td_load.set(\n                "demand_backhaul",\n                td_load["demand_backhaul"] / td_load["capacity_original"],\n            )\n', "", "C19.b"),
+]
